@@ -1,0 +1,45 @@
+//go:build verif
+
+// Contracts for the deductive verifier in /verif (comment-only; compiled only with -tags verif).
+
+package x509util
+
+// The embedded SCT list, element for element (C03, C04): each SerializedSCT is the complete TLS
+// encoding of one SCT (trailing bytes refused, a complete decode accepted), the lists keep length and
+// order in both directions.
+//@ func ExtractSCT
+//@ props C03 C04
+//@ modifies nothing
+//@ frame-trusted decodes into a new object
+//@ site tls.Unmarshal#1 as um
+//@ fresh result0
+//@ ensures [nothing-to-decode-is-an-error] sctData == nil ==> result1 != nil && !um.called
+//@ ensures [must-decode-completely] um.called && (um.res1 != nil || len(um.res0) > 0) ==> result1 != nil && result0 == nil
+//@ ensures [what-decodes-completely-is-accepted-and-returned] um.called && um.res1 == nil && len(um.res0) == 0 ==> result1 == nil && result0 != nil && *result0 == after(um, sct)
+//@ at um assert [decodes-all-the-bytes-of-this-element] um.b == sctData.Val
+
+//@ func ParseSCTsFromSCTList
+//@ props C03 C04
+//@ arith int
+//@ may panic
+//@ modifies nothing
+//@ frame-trusted builds a new slice
+//@ site ExtractSCT#1 as ex
+//@ requires sctList != nil
+//@ loop 1 invariant len(scts) == rangeindex + 1
+//@ ensures [one-sct-per-element-in-order-or-an-error] result1 == nil ==> len(result0) == len(sctList.SCTList)
+//@ ensures [an-element-that-does-not-decode-fails-the-list] ex.called && ex.res1 != nil ==> result1 != nil && len(result0) == 0
+//@ at ex assert [the-element-at-this-position] ex.sctData != nil && ex.sctData.Val == sctList.SCTList[i].Val
+//@ loop 1 step-assert [the-sct-just-decoded-goes-to-the-same-position] len(next(scts)) == len(head(scts)) + 1 && next(scts)[len(head(scts))] == ex.res0
+
+//@ func MarshalSCTsIntoSCTList
+//@ props C03 C04
+//@ arith int
+//@ modifies nothing
+//@ frame-trusted builds a new list
+//@ site tls.Marshal#1 as m
+//@ loop 1 invariant len(sctList.SCTList) == rangeindex + 1
+//@ ensures [one-element-per-sct-in-order-or-an-error] result1 == nil ==> result0 != nil && len(result0.SCTList) == len(scts)
+//@ ensures [a-nil-or-unencodable-sct-fails-the-list] (m.called && m.res1 != nil) ==> result1 != nil && result0 == nil
+//@ at m assert [each-sct-is-encoded-whole] typeof(m.val) == ct.SignedCertificateTimestamp && as(m.val, ct.SignedCertificateTimestamp) == *sct
+//@ loop 1 step-assert [the-encoding-just-made-goes-to-the-same-position] sctList.SCTList[len(sctList.SCTList) - 1].Val == m.res0
